@@ -1,9 +1,145 @@
 /-
 Property C11 — relaxation and multigrid are consistent, contractive iterations.
+Property theorems only (helper lemmas: Proofs/Relax.lean, Proofs/RelaxMG.lean).
+
+All statements are about the transliterated model `Pyiga.Model.Relax` (CSR kernel of
+`relaxation_cy.pyx`, dense branch and sweep dispatch of `solvers.gauss_seidel`,
+`local_mg_step`, `iterative_solve`, `twogrid`, smoothing sets) and hold for every
+matrix size, every stored row, every index list, every sweep count, every level count.
 -/
 import Pyiga.Proofs.Relax
+-- import Pyiga.Proofs.RelaxMG
 
 namespace Pyiga.Props.C11
-open Pyiga.Relax
+open Pyiga.Relax Finset
+
+section gs
+variable {K : Type} [Field K] [DecidableEq K]
+
+/-! ## Gauss-Seidel: what the kernel computes -/
+
+/-- **As coded** (no assumption on the CSR row): the inner loop returns
+`rsum = Σ a·x[col]` over *all* stored entries with `col ≠ i` (duplicates all used, in
+storage order) and `diag` = the *last* stored `(i,i)` entry (`0` if none). -/
+theorem gs_as_coded (i : ℕ) (x : List K) (es : List (ℕ × K)) (r0 d0 : K) :
+    gsRowAcc i x es (r0, d0) = (r0 + offSum es i x, lastDiag es i d0) :=
+  gsRowAcc_eq i x es r0 d0
+
+/-- **Textbook update.**  If row `i` stores at most one diagonal entry and all columns are
+`< n`, one modelled row update is `x_i ← (b_i − Σ_{j≠i} a_ij x_j) / a_ii` with the current
+(already updated) entries of `x`, where `a_ij = rowVal es j` is the matrix entry the row
+denotes (off-diagonal duplicates summed, explicit zeros and unsorted columns irrelevant);
+rows with `a_ii = 0` (zero or missing diagonal) are left unchanged. -/
+theorem gs_textbook (es : List (ℕ × K)) (b : ℕ → K) (x : List K) (i n : ℕ)
+    (hdiag : (es.filter (fun e => e.1 = i)).length ≤ 1) (hcols : ∀ e ∈ es, e.1 < n) :
+    gsUpdate es b x i =
+      if rowVal es i ≠ 0 then
+        x.set i ((b i - ∑ j ∈ (range n).erase i, rowVal es j * x.getD j 0) / rowVal es i)
+      else x :=
+  gsUpdate_textbook es b x i n hdiag hcols
+
+/-- non-vacuity: row `[(1,2),(0,4),(1,-1)]` (unsorted, duplicate off-diagonal) of a 2×2 system. -/
+example : gsUpdate [((1 : ℕ), (2 : ℚ)), (0, 4), (1, -1)] (fun _ => 6) [0, 2] 0 = [1, 2] := by
+  decide +kernel
+
+/-- **The canonicity hypothesis is forced**: with two stored diagonal entries `(0,1),(0,1)`
+(the matrix entry is `a_00 = 2`) the kernel divides by the last one only: it returns `2`
+where the textbook update of the denoted matrix gives `1`.  (scipy's `csr_matrix(coo)`
+sums duplicates, a hand-built CSR need not.) -/
+theorem gs_duplicate_diagonal_not_textbook :
+    gsUpdate [((0 : ℕ), (1 : ℚ)), (0, 1)] (fun _ => 2) [0] 0 = [2] ∧
+    rowVal [((0 : ℕ), (1 : ℚ)), (0, 1)] 0 = 2 ∧
+    ([0] : List ℚ).set 0 ((2 - ∑ j ∈ (range 1).erase 0, rowVal [((0 : ℕ), (1 : ℚ)), (0, 1)] j * 0) / 2) = [1] := by
+  refine ⟨by decide +kernel, by decide +kernel, by simp⟩
+
+/-- **Order of a sweep**: the index list is processed front to back, each update seeing the
+previous ones (so a pass over `l₁ ++ l₂` is a pass over `l₁` followed by one over `l₂`). -/
+theorem gs_sweep_order (A : CSR K) (b : ℕ → K) (i : ℕ) (idx l₁ l₂ : List ℕ) (x : List K) :
+    gsSweep A b (i :: idx) x = gsSweep A b idx (gsUpdate (A.row i) b x i) ∧
+    gsSweep A b (l₁ ++ l₂) x = gsSweep A b l₂ (gsSweep A b l₁ x) :=
+  ⟨gsSweep_cons A b i idx x, gsSweep_append A b l₁ l₂ x⟩
+
+/-- `sweep='backward'` is the forward sweep over the reversed index list
+(`range(N-1,-1,-1)` when no index list is given). -/
+theorem gs_backward_is_reversed {β : Type} (relax : List ℕ → β → β) (N : ℕ)
+    (indices : Option (List ℕ)) (k : ℕ) (x : β) :
+    gaussSeidel relax N indices k .backward x
+      = gaussSeidel relax N (some ((indices.getD (List.range N)).reverse)) k .forward x := by
+  simp [gaussSeidel]
+
+/-- `sweep='symmetric'` is `iterations` × (one forward pass, then one backward pass). -/
+theorem gs_symmetric_is_forward_backward {β : Type} (relax : List ℕ → β → β) (N : ℕ)
+    (indices : Option (List ℕ)) (k : ℕ) (x : β) :
+    gaussSeidel relax N indices k .symmetric x
+      = iter (fun x => gaussSeidel relax N indices 1 .backward
+          (gaussSeidel relax N indices 1 .forward x)) k x := by
+  simp [gaussSeidel, iter]
+
+/-- **Dense and sparse branches agree** on a canonical row with nonzero diagonal. -/
+theorem gs_dense_sparse_agree (es : List (ℕ × K)) (A : ℕ → ℕ → K) (b : ℕ → K) (x : List K)
+    (i n : ℕ) (hdiag : (es.filter (fun e => e.1 = i)).length ≤ 1) (hcols : ∀ e ∈ es, e.1 < n)
+    (hi : i < n) (hne : rowVal es i ≠ 0) (hA : ∀ j < n, A i j = rowVal es j) :
+    denseUpdate n A b x i = gsUpdate es b x i :=
+  gs_dense_sparse es A b x i n hdiag hcols hi hne hA
+
+/-- **Fixed point**: if `x` satisfies the equations of all rows in the index list
+(`Σ_j a_ij x_j = b_i`), any sweep over that list — with repetitions, in any order —
+returns `x` unchanged.  In particular an exact solution is a fixed point of every
+forward/backward/symmetric sweep and every iteration count. -/
+theorem gs_fixed_point (A : CSR K) (b : ℕ → K) (idx : List ℕ) (x : List K) (n : ℕ)
+    (h : ∀ i ∈ idx, i < n ∧ ((A.row i).filter (fun e => e.1 = i)).length ≤ 1 ∧
+      (∀ e ∈ A.row i, e.1 < n) ∧ ∑ j ∈ range n, rowVal (A.row i) j * x.getD j 0 = b i) :
+    gsSweep A b idx x = x :=
+  gsSweep_fixed A b idx x n h
+
+/-- non-vacuity of `gs_fixed_point`: `[[2,1],[1,3]] · (1,1) = (3,4)`. -/
+example : gsSweep ({ indptr := [0, 2, 4], indices := [0, 1, 1, 0], data := [2, 1, 3, 1] } : CSR ℚ)
+    (fun i => if i = 0 then 3 else 4) [1, 0, 1] [1, 1] = [1, 1] := by decide +kernel
+
+/-! ## Gauss-Seidel never increases the energy -/
+
+/-- **Energy identity.**  `A` symmetric, `a_ii ≠ 0`: the coordinate update of row `i` changes
+`E(x) = ½ xᵀAx − bᵀx` by exactly `−r_i² / (2 a_ii)` with `r_i = b_i − (Ax)_i`. -/
+theorem gs_energy (n : ℕ) (A : ℕ → ℕ → K) (b : ℕ → K) (x : List K) (i : ℕ)
+    (hi : i < n) (hlen : n ≤ x.length) (hsym : ∀ i < n, ∀ j < n, A i j = A j i)
+    (hne : A i i ≠ 0) [NeZero (2 : K)] :
+    energy n A b (vecFn (denseUpdate n A b x i))
+      = energy n A b (vecFn x) - (rowRes n A b x i) ^ 2 / (2 * A i i) :=
+  denseUpdate_energy n A b x i hi hlen hsym hne
+
+end gs
+
+section ordered
+variable {K : Type} [Field K] [LinearOrder K] [IsStrictOrderedRing K]
+
+/-- one update with `a_ii > 0` does not increase the energy. -/
+theorem gs_energy_le (n : ℕ) (A : ℕ → ℕ → K) (b : ℕ → K) (x : List K) (i : ℕ)
+    (hi : i < n) (hlen : n ≤ x.length) (hsym : ∀ i < n, ∀ j < n, A i j = A j i)
+    (hpos : 0 < A i i) :
+    energy n A b (vecFn (denseUpdate n A b x i)) ≤ energy n A b (vecFn x) :=
+  denseUpdate_energy_le n A b x i hi hlen hsym hpos
+
+/-- **Monotonicity of every sweep.**  `A` symmetric with positive diagonal on the smoothed
+rows: for every index list (any order, repetitions), every iteration count and each of the
+three sweep directions, `E(gauss_seidel(x)) ≤ E(x)`.  For SPD `A` with `A x* = b`,
+`E(x) − E(x*) = ½‖x − x*‖²_A`, so the energy-norm error never increases. -/
+theorem gs_sweep_energy_le (n : ℕ) (A : ℕ → ℕ → K) (b : ℕ → K)
+    (hsym : ∀ i < n, ∀ j < n, A i j = A j i) (idx : List ℕ)
+    (hidx : ∀ i ∈ idx, i < n ∧ 0 < A i i) (iterations : ℕ) (sweep : Sweep)
+    (x : List K) (hlen : n ≤ x.length) :
+    energy n A b (vecFn (gaussSeidel (denseSweep n A b) n (some idx) iterations sweep x))
+      ≤ energy n A b (vecFn x) :=
+  gaussSeidel_dense_energy_le n A b hsym idx hidx iterations sweep x hlen
+
+/-- non-vacuity: `A = [[2,1],[1,2]]`, `b = (3,4)`, one symmetric sweep from `x = (0,0)`. -/
+example : energy 2 (fun i j => if i = j then 2 else (1 : ℚ)) (fun i => if i = 0 then 3 else 4)
+      (vecFn (gaussSeidel (denseSweep 2 (fun i j => if i = j then 2 else (1 : ℚ))
+        (fun i => if i = 0 then 3 else 4)) 2 (some [0, 1]) 1 .symmetric [0, 0]))
+    ≤ energy 2 (fun i j => if i = j then 2 else (1 : ℚ)) (fun i => if i = 0 then 3 else 4)
+        (vecFn [0, 0]) :=
+  gs_sweep_energy_le 2 _ _ (by intro i _ j _; by_cases h : i = j <;> simp [h, eq_comm])
+    [0, 1] (by intro i hi; simp at hi; constructor <;> [omega; simp]) 1 .symmetric [0, 0] (by simp)
+
+end ordered
 
 end Pyiga.Props.C11
